@@ -211,6 +211,8 @@ def run(tier):
              "roundtrips": collections.Counter(), "elements": 0, "mono_elements": 0, "comparisons": 0, "nontrivial": 0}
     for p in plans:
         explore(ck, dict(p, exe=exe), stats, workers)
+    if os.environ.get("VERIF_C18_DUMP"):      # development aid: all unlisted disagreements, one per line
+        vlib.write_ndjson(os.environ["VERIF_C18_DUMP"], [rec for rec, _ in ck.violations])
     # vacuity: every branch of the specification must have been exercised
     need = []
     for k in ALL_KINDS:
